@@ -18,21 +18,27 @@ from vlib.run import HarnessError, Result
 LEVEL = "exploration"
 RULE = (
     "a script = owner-loop end state {running, stopped-not-closed, closed} + 1..4 bursts of 1..200 concurrent calls, each "
-    "call = (where the proxy attribute was looked up {at call time, earlier on the main loop, earlier on the owner loop}, method kind in {coroutine returning a value, coroutine raising, plain returning None, plain returning a value, "
+    "call = (where the proxy attribute was looked up {at call time, earlier on the main loop, earlier on the owner loop}, method kind in {coroutine returning a value, coroutine raising an Exception / a BaseException that is not an Exception / CancelledError, plain returning None, plain returning a value, "
     "plain raising, non-callable attribute}, caller in {owner loop, main-thread loop, second loop thread}, argument). "
     "Non-trivial = at least one call crossed threads; distinct by script. Oracles are timing-insensitive (thread identity, "
     "value/exception relay, exactly-once, per-caller FIFO); a 20 s wall guard per script yields 'inconclusive', never a violation."
 )
 ASSUMPTIONS = [
     "thread scheduling is not owned by the harness: the loop-closing-underneath-the-caller race is only sampled",
-    "for the stopped-but-not-closed owner loop only 'never executed on the caller's thread' is asserted",
+    "for the stopped-but-not-closed owner loop: nothing runs on a caller's thread, and plain calls made meanwhile are queued "
+    "(the statement drops calls only for a CLOSED loop): they run exactly once, in per-caller order, once the loop runs again; "
+    "coroutine calls made meanwhile are not judged (their futures are cancelled by the harness)",
 ]
 
-KINDS = ["coro_value", "coro_raise", "plain_none", "plain_value", "plain_raise", "attr"]
+KINDS = ["coro_value", "coro_raise", "coro_raise_base", "coro_cancelled", "plain_none", "plain_value", "plain_raise", "attr"]
 
 
 class Boom(Exception):
     pass
+
+
+class Fatal(BaseException):
+    """An exception that is not an `Exception` (like GeneratorExit / custom BaseException subclasses)."""
 
 
 class Target:
@@ -54,6 +60,15 @@ class Target:
     async def coro_raise(self, arg):
         self._rec("coro_raise", arg)
         raise Boom(arg)
+
+    async def coro_raise_base(self, arg):
+        self._rec("coro_raise_base", arg)
+        await asyncio.sleep(0)
+        raise Fatal(arg)
+
+    async def coro_cancelled(self, arg):
+        self._rec("coro_cancelled", arg)
+        raise asyncio.CancelledError()
 
     def plain_none(self, arg):
         self._rec("plain_none", arg)
@@ -89,6 +104,12 @@ class RawLoopThread:
     def stop(self):
         self.loop.call_soon_threadsafe(self.loop.stop)
         self.thread.join(5)
+
+    def restart(self):
+        """Run the same (stopped, not closed) loop again in a fresh thread."""
+        self.started.clear()
+        self.thread = threading.Thread(target=self._main, daemon=True)
+        self.start()
 
 
 async def drive_calls(proxy, calls, out, caller, await_results=True, pre=None):
@@ -129,8 +150,12 @@ async def drive_calls(proxy, calls, out, caller, await_results=True, pre=None):
             out[cid] = ("result", val, threading.get_ident())
         except Boom as ex:
             out[cid] = ("Boom", ex.args[0], threading.get_ident())
+        except Fatal as ex:
+            out[cid] = ("Fatal", ex.args[0], threading.get_ident())
         except asyncio.TimeoutError:
             out[cid] = ("timeout", None, me)
+        except asyncio.CancelledError:
+            out[cid] = ("cancelled", None, me)
         except BaseException as ex:
             out[cid] = ("other-exc", repr(ex), me)
 
@@ -251,6 +276,14 @@ async def run_script(plan, r: Result):
                     if got[0] != "Boom" or got[1] != arg:
                         r.bad("C20:coroutine-exception-not-relayed", f"from {caller}: {got}")
                         return crossed
+                elif kind == "coro_raise_base":
+                    if got[0] != "Fatal" or got[1] != arg:
+                        r.bad("C20:coroutine-exception-not-relayed:base-exception", f"from {caller}: {got}")
+                        return crossed
+                elif kind == "coro_cancelled":
+                    if got[0] != "cancelled":
+                        r.bad("C20:coroutine-exception-not-relayed:cancelled", f"from {caller}: {got}")
+                        return crossed
                 elif cross:
                     if got[0] != "returned" or got[1] is not None:
                         r.bad("C20:plain-call-returned-something", f"{kind} from {caller}: {got}")
@@ -281,6 +314,30 @@ async def run_script(plan, r: Result):
                 if bo != n_rai:
                     r.bad("C20:queued-exception-lost", f"{n_rai} raising calls, {bo} seen in owner handler")
                     return crossed
+        if state == "stopped":
+            # the owner loop was only stopped, not closed: plain calls made meanwhile were queued on it and must run -
+            # exactly once, on the thread that runs the owner loop, in per-caller order - as soon as the loop runs again
+            n0 = len(target.calls)
+            owner.restart()
+            flush = asyncio.run_coroutine_threadsafe(_ident(), owner_loop)
+            new_ident = await asyncio.wait_for(asyncio.wrap_future(flush), 10)
+            flush = asyncio.run_coroutine_threadsafe(_ident(), owner_loop)
+            await asyncio.wait_for(asyncio.wrap_future(flush), 10)
+            ran = [(k, a, tid) for k, a, tid in target.calls if k.startswith("plain")]
+            for k, a, tid in ran:
+                if tid != new_ident:
+                    r.bad("C20:body-ran-on-foreign-thread", f"{k}({a}) ran on {tid}, the owner loop now runs on {new_ident}")
+                    return crossed
+            for caller in ("main", "second"):
+                want = [(c[0], c[2]) for b in plan["bursts"] for c in b
+                        if c[0].startswith("plain") and (c[1] if c[1] != "owner" else "main") == caller]
+                got_order = [(k, a) for k, a, _ in ran if (k, a) in set(want)]
+                if got_order != want:
+                    r.bad("C20:queued-call-dropped-on-stopped-loop" if len(got_order) < len(want) else "C20:queued-calls-not-fifo",
+                          f"{caller}: issued while the owner loop was stopped {want[:6]}, executed after it ran again {got_order[:6]}")
+                    return crossed
+            r.cls("stopped-loop-restarted")
+            owner.stop()
         return crossed
     finally:
         second.force_stop()
@@ -313,6 +370,11 @@ def check(plan) -> Result:
     except asyncio.TimeoutError:
         r.cls("inconclusive-wall-guard")
         r.note = "inconclusive"
+        return r
+    except Fatal as ex:
+        # raised only inside Target.coro_raise_base; its one legitimate route is the caller's awaited future (caught in
+        # drive_calls).  Surfacing anywhere else (it killed a loop thread, came out of a helper future) = not relayed.
+        r.bad("C20:coroutine-exception-not-relayed:base-exception", f"Fatal({ex.args}) escaped instead of reaching its caller")
         return r
     r.nontrivial = bool(crossed)
     n = sum(len(b) for b in plan["bursts"])
